@@ -18,6 +18,8 @@ FUNCTIONS = ["btc_hd_wallet.helper.h160_to_p2pkh_address", "btc_hd_wallet.helper
 BOUNDS = {"values": "both networks x free master key x free account/interval start x every output-producing API; wallets re-imported "
                     "from each of the 12 version prefixes; node_extended_keys of nodes at free paths of length 0..3; two wallets of "
                     "different networks used one after the other in the same process"}
+BOUNDS_ADDED = 'fresh-entropy constructors on both networks incl. a first draw that gives an invalid master key; end-to-end runs that build the wallet from an extended key or with --testnet'
+BOUNDS["histories, lifetimes, injected faults, boundary vectors"] = BOUNDS_ADDED
 STUBS = ["as C06"]
 ASSUMPTIONS = ["BIP85 WIF/xprv values are mainnet-format child secrets by BIP85 and are not network-tagged artefacts"]
 OUTSIDE = []
